@@ -274,9 +274,9 @@ func runC06(e *sim.Env) {
 func init() {
 	register(&Prop{
 		ID: "C06", Run: runC06, Quick: 800, Thorough: 20000, Level: "exploration",
-		Rule: "one run = C02-style history in which the wallet's address is miner, payee, spender, v1/v2 contract party (valid, missed, renewed, expired payouts), siafund claimant and foundation address; the wallet consumes the update stream in chunks of 1-8 at drawn moments (lagging behind, chunks ending on reverts) through a store that records the index the stream left it at; whenever it has caught up: stored outputs == reference-ledger outputs paying the address (value, maturity, leaf index, proof), proofs verify, no event is indexed off the best chain, events == events of a fresh wallet fed the best chain once, inflows - outflows == sum of unspent outputs == Balance; distinct = abstract trace; non-trivial = a reorg reverting blocks",
-		Real: []string{"wallet.SingleAddressWallet (UpdateChainState, appliedEvents, Balance)", "chain.Manager", "chain.DBStore"},
-		Stub: []string{"wallet store: harness walletStore (records the stream's index as tip)", "syncer: recording stub", "disk: simdisk.DB"},
+		Rule:        "one run = C02-style history in which the wallet's address is miner, payee, spender, v1/v2 contract party (valid, missed, renewed, expired payouts), siafund claimant and foundation address; the wallet consumes the update stream in chunks of 1-8 at drawn moments (lagging behind, chunks ending on reverts) through a store that records the index the stream left it at; whenever it has caught up: stored outputs == reference-ledger outputs paying the address (value, maturity, leaf index, proof), proofs verify, no event is indexed off the best chain, events == events of a fresh wallet fed the best chain once, inflows - outflows == sum of unspent outputs == Balance; distinct = abstract trace; non-trivial = a reorg reverting blocks",
+		Real:        []string{"wallet.SingleAddressWallet (UpdateChainState, appliedEvents, Balance)", "chain.Manager", "chain.DBStore"},
+		Stub:        []string{"wallet store: harness walletStore (records the stream's index as tip)", "syncer: recording stub", "disk: simdisk.DB"},
 		Assumptions: []string{"the store records as its tip the index the stream left it at (precondition in the property statement)"},
 	})
 }
